@@ -8,6 +8,7 @@ import (
 	"time"
 
 	"github.com/sirupsen/logrus"
+	"github.com/tilinna/clock"
 
 	"github.com/atlassian/gostatsd"
 )
@@ -16,11 +17,12 @@ import (
 // postMetrics / post retry loop (real exponential back-off, symbolic clock) and constructPost
 // (JSON encoder stubbed) against a symbolic per-attempt fault script, 1..2 batches, 0..2 free
 // request buffers, shutdown before or during the flush.
-func VerifC16_Datadog() {
-	up := &verifC16Upstream{max: 3, okStatus: 202}
-	ctx, cancel := context.WithCancel(context.Background())
+func verifC16Datadog(maxAttempts int, inflightCancel bool) {
+	clk := verifNewStepClock()
+	up := &verifC16Upstream{max: maxAttempts, okStatus: 202, clk: clk, window: 30 * time.Second}
+	ctx, cancel := context.WithCancel(clock.Context(context.Background(), clk))
 	defer cancel()
-	if nondetBool() {
+	if inflightCancel && nondetBool() {
 		up.cancel = cancel
 	}
 	nbuf := nondetIntIn(0, 2)
@@ -56,7 +58,11 @@ func VerifC16_Datadog() {
 	verifAssert(len(d.metricsBufferSem) == nbuf || up.cancelled, "datadog: every request buffer is back in the pool after the flush")
 }
 
+// quick: up to 2 attempts, shutdown before the flush or while an attempt is in flight
+func VerifC16_Datadog()     { verifC16Datadog(2, true) }
+func VerifC16_DatadogFull() { verifC16Datadog(3, true) }
+
 func VerifC16_DatadogTwin() {
-	VerifC16_Datadog()
+	verifC16Datadog(1, false)
 	verifAssert(false, "twin-false")
 }
